@@ -43,11 +43,21 @@ def toml_value(lf):
     return s
 
 
-def to_toml(doc, rnd=None, comments=False, prefix=()):
-    """tagged tree -> TOML text (scalars first, then sub-tables with [a.b] headers); every value on one line"""
+def inline(doc):
+    return "{ " + ", ".join("%s = %s" % (e["key"], inline(e["val"]) if e["val"]["k"] == "table" else toml_value(e["val"])) for e in doc["v"]) + " }"
+
+
+def to_toml(doc, rnd=None, comments=False, prefix=(), styles=False):
+    """tagged tree -> TOML text (scalars first, then sub-tables with [a.b] headers); every value on one line.
+    styles: some tables are written inline ({ a = 1 }) and sub-tables of different parents are interleaved"""
     lines = []
     scal = [e for e in doc["v"] if e["val"]["k"] != "table"]
     tabs = [e for e in doc["v"] if e["val"]["k"] == "table"]
+    if styles and rnd:
+        for e in list(tabs):
+            if e["val"]["v"] and rnd.random() < 0.35:
+                tabs.remove(e)
+                lines.append("%s = %s" % (e["key"], inline(e["val"])))
     for e in scal:
         if comments and rnd and rnd.random() < 0.3:
             lines.append("# a comment about %s = 1" % e["key"])
@@ -56,7 +66,7 @@ def to_toml(doc, rnd=None, comments=False, prefix=()):
         path = prefix + (e["key"],)
         lines.append("")
         lines.append("[%s]" % ".".join(path))
-        sub = to_toml(e["val"], rnd, comments, path)
+        sub = to_toml(e["val"], rnd, comments, path, styles)
         if sub:
             lines.append(sub)
     return "\n".join(lines)
@@ -128,17 +138,18 @@ def run_cases(args):
     out = []
     try:
         for n, (d, u, has_file, comments) in enumerate(cases):
+            styles = comments
             app = "app%d" % n
             from aw_core import dirs
             cdir = dirs.get_config_dir(app)
             assert cdir.startswith(root), cdir
             path = os.path.join(cdir, app + ".toml")
-            dtxt = to_toml(d)
+            dtxt = to_toml(d, rnd, False, (), styles and rnd.random() < 0.5)
             rec = {"d": d, "has_file": has_file, "u": u if has_file else table([]), "out": "ok", "file_written": False, "later": table([])}
             before = None
             if has_file:
                 with open(path, "w") as f:
-                    f.write(to_toml(u, rnd, comments) + "\n")
+                    f.write(to_toml(u, rnd, comments, (), styles) + "\n")
                 before = open(path, "rb").read()
             try:
                 res = C.load_config_toml(app, dtxt)
